@@ -508,6 +508,38 @@ def value_tokens(v, out=None):
     return " ".join(out) if top else None
 
 
+def parse_value_tokens(toks, pos=0):
+    """inverse of value_tokens (used by --replay): -> (typed value, next position)"""
+    t = toks[pos]
+    k = t[0]
+    if k == "n":
+        return None, pos + 1
+    if k == "t":
+        return True, pos + 1
+    if k == "f":
+        return False, pos + 1
+    if k == "i":
+        return ("i", int(t[1:])), pos + 1
+    if k == "d":
+        return ("d", int(t[1:], 16)), pos + 1
+    if k == "s":
+        return ("s", bytes.fromhex(t[1:])), pos + 1
+    n = int(t[1:])
+    pos += 1
+    if k == "a":
+        out = []
+        for _ in range(n):
+            v, pos = parse_value_tokens(toks, pos)
+            out.append(v)
+        return ("a", out), pos
+    d = {}
+    for _ in range(n):
+        key = bytes.fromhex(toks[pos][1:])
+        v, pos = parse_value_tokens(toks, pos + 1)
+        d[key] = v
+    return ("o", d), pos
+
+
 # ------------------------------------------------------------------------------- mutants
 INTERESTING_BYTES = b'"\\{}[],:0123456789eE.-+utfn \t\n\r\x00\x01\x1f\x7f\x80\xbf\xc0\xc2\xe0\xed\xef\xf0\xf4\xf8\xff/'
 DICT = [b'\\u', b'\\u0', b'\\u00', b'\\u000', b'\\u0000', b'\\ud800', b'\\udc00', b'\\ud83d\\ude00', b'"', b'\\', b'\\"',
